@@ -641,3 +641,97 @@ Section Count.
     split; [exact G|]. pose proof (cN_le N (c_st (run P n c0))). lia.
   Qed.
 End Count.
+
+(* (4-ii) TERMINATION REDUCED to the two missing facts: if (a) every _execute pass that starts with the awaited
+   task uncomputed ends (MAfterExec is reached), and (b) the number of futures ever created is bounded, then the
+   computation is done at some fuel, with the sequential outcome *)
+Section Reduce.
+  Variable P : params.
+  Hypothesis HP : pointwise P.
+  Variable p0 : prog.
+  Hypothesis Ht0 : tree p0.
+
+  Let h := fst (create [] (FTask p0) (st0 P)).
+  Let s1 := snd (create [] (FTask p0) (st0 P)).
+  Let c0 := start h s1.
+
+  Hypothesis Hnu : forall n, no_unwind P n c0.
+  Hypothesis Hpass : forall n, c_mode (run P n c0) = MWaitHead -> computed h (c_st (run P n c0)) = false ->
+    exists m, c_mode (run P (n + m) c0) = MAfterExec.
+  Variable N : nat.
+  Hypothesis Halloc : forall n, (top_next (c_st (run P n c0)) <= Z.of_nat N)%Z.
+
+  Lemma frames_at n : c_mode (run P n c0) = MWaitHead \/ c_mode (run P n c0) = MAfterExec ->
+    c_frames (run P n c0) = [FWait h; FTop].
+  Proof.
+    intros Hm. destruct (tree_run_CInv P p0 n HP Ht0 (Hnu n)) as (spec & HC). fold h s1 c0 in HC.
+    unfold CInv in HC. destruct Hm as [Hm|Hm]; rewrite Hm in HC; destruct HC as (_ & Hf & _); exact Hf.
+  Qed.
+
+  (* from the head of wait_for or from the end of a pass, with the awaited task computed: done in two steps *)
+  Lemma done_in_two n : c_mode (run P n c0) = MWaitHead \/ c_mode (run P n c0) = MAfterExec ->
+    computed h (c_st (run P n c0)) = true -> exists o, c_mode (run P (n + 2) c0) = MDone o.
+  Proof.
+    intros Hm Hc. pose proof (frames_at n Hm) as Hf. rewrite run_add.
+    destruct (run P n c0) as [m fr s]. cbn [c_mode c_frames c_st] in *. subst fr.
+    change 2%nat with (1 + 1)%nat. rewrite (run_add P 1 1), !run_one.
+    destruct Hm as [-> | ->]; cbn [step c_mode c_frames c_st]; rewrite Hc;
+      cbn [step c_mode c_frames c_st]; eexists; reflexivity.
+  Qed.
+
+  Lemma reduce_measure : forall j n, c_mode (run P n c0) = MWaitHead ->
+    (N - cN N (c_st (run P n c0)) <= j)%nat -> exists n' o, c_mode (run P n' c0) = MDone o.
+  Proof.
+    induction j as [|j IH]; intros n Hm Hj.
+    - destruct (computed h (c_st (run P n c0))) eqn:Hc.
+      + destruct (done_in_two n (or_introl Hm) Hc) as (o & Ho). eauto.
+      + destruct (Hpass n Hm Hc) as (m & Hm2).
+        destruct (computed h (c_st (run P (n + m) c0))) eqn:Hc2.
+        * destruct (done_in_two (n + m) (or_intror Hm2) Hc2) as (o & Ho). eauto.
+        * exfalso. assert (Hf : fpb P p0 (n + m) = true) by (unfold fpb; fold h s1 c0; rewrite Hm2, Hc2; reflexivity).
+          pose proof (flush_counts P HP p0 Ht0 Hnu N (n + m) (Halloc (n + m)) Hf) as Hlt. fold h s1 c0 in Hlt.
+          pose proof (cN_mono N _ _ (fun x => comp_mono_add P p0 n m x)) as Hle. fold h s1 c0 in Hle.
+          pose proof (cN_le N (c_st (run P (S (n + m)) c0))). lia.
+    - destruct (computed h (c_st (run P n c0))) eqn:Hc.
+      + destruct (done_in_two n (or_introl Hm) Hc) as (o & Ho). eauto.
+      + destruct (Hpass n Hm Hc) as (m & Hm2).
+        destruct (computed h (c_st (run P (n + m) c0))) eqn:Hc2.
+        * destruct (done_in_two (n + m) (or_intror Hm2) Hc2) as (o & Ho). eauto.
+        * assert (Hf : fpb P p0 (n + m) = true) by (unfold fpb; fold h s1 c0; rewrite Hm2, Hc2; reflexivity).
+          pose proof (flush_counts P HP p0 Ht0 Hnu N (n + m) (Halloc (n + m)) Hf) as Hlt. fold h s1 c0 in Hlt.
+          pose proof (cN_mono N _ _ (fun x => comp_mono_add P p0 n m x)) as Hle. fold h s1 c0 in Hle.
+          destruct (flush_makes_progress P HP p0 Ht0 (n + m) (Hnu (n + m)) Hm2 Hc2) as (Hw & _). fold h s1 c0 in Hw.
+          apply (IH (S (n + m)) Hw). lia.
+  Qed.
+
+  Theorem terminates_if_passes_end_and_allocation_bounded : exists n, c_mode (run P n c0) = MDone (eval p0).
+  Proof.
+    assert (Hg : get h s1 = Some (mkFut None (KTask (fresh_task p0)))) by (unfold h, s1, create, alloc; cbn; reflexivity).
+    assert (E1 : c_mode (run P 1 c0) = MWaitHead).
+    { rewrite run_one. unfold c0, start. cbn [step c_mode c_frames c_st]. unfold computed. rewrite Hg. reflexivity. }
+    destruct (reduce_measure N 1 E1 ltac:(lia)) as (n & o & Ho).
+    exists n. rewrite Ho. f_equal. exact (async_eq_seq_tree P p0 n o HP Ht0 (Hnu n) Ho).
+  Qed.
+End Reduce.
+
+Theorem termination_reduced_tree P p N :
+  pointwise P -> tree p ->
+  let h := fst (create [] (FTask p) (st0 P)) in
+  let s1 := snd (create [] (FTask p) (st0 P)) in
+  (forall n, no_unwind P n (start h s1)) ->
+  (forall n, c_mode (run P n (start h s1)) = MWaitHead -> computed h (c_st (run P n (start h s1))) = false ->
+     exists m, c_mode (run P (n + m) (start h s1)) = MAfterExec) ->
+  (forall n, (top_next (c_st (run P n (start h s1))) <= Z.of_nat N)%Z) ->
+  exists n, c_mode (run P n (start h s1)) = MDone (eval p).
+Proof. intros HP Ht. cbn zeta. intros Hnu Hpass Halloc. exact (terminates_if_passes_end_and_allocation_bounded P HP p Ht Hnu Hpass N Halloc). Qed.
+
+Theorem flushes_bounded_tree P p N n :
+  pointwise P -> tree p ->
+  let h := fst (create [] (FTask p) (st0 P)) in
+  let s1 := snd (create [] (FTask p) (st0 P)) in
+  (forall n, no_unwind P n (start h s1)) ->
+  (forall k, (k <= n)%nat -> (top_next (c_st (run P k (start h s1))) <= Z.of_nat N)%Z) ->
+  (length (filter (fun k => match c_mode (run P k (start h s1)) with
+                            | MAfterExec => negb (computed h (c_st (run P k (start h s1))))
+                            | _ => false end) (seq 0 n)) <= N)%nat.
+Proof. intros HP Ht. cbn zeta. intros Hnu HN. exact (proj2 (flushes_bounded P HP p Ht Hnu N n HN)). Qed.
